@@ -75,11 +75,51 @@ def _examples():
     return out
 
 
+def statement_forms_well_formed():
+    """every statement form of the catalogue (the C08 forms) and a list of shapes that exercise the emitters' corner cases, alone and
+    after an empty DATA item switched the read filter on: the emitted program passes the BASIC09 recogniser, holds no internal object's
+    repr and no line ends in a dangling ` \\ ` separator"""
+    from coco.b09.compiler import convert
+    from tx.p_c08 import FORMS
+    extra = ["A=-X^2", "B=+(A+1)^B", "PRINT -X^2;+Y^2", "IF -X^2>1 THEN 10", "FOR I=-X^2 TO +Y^2:NEXT", "A(-X^2)=1", "A=NOT B^2", "A=-(-X)", "A=- -X^2",
+             "READ A$,B$,C$", "IF Q=1 THEN READ D$", "READ A$:READ B,C$", "READ A", "READ A(1),B$(2)", "INPUT A$,B$", "LINE INPUT A$", "DATA X,,Z", "DATA ,", "DATA", "RESTORE:READ A$",
+             "ON A GOSUB 10", "ON INT(A) GOTO 10,10", "IF A=1 THEN 10 ELSE IF A=2 THEN 10", "IF INT(A)=1 THEN 10 ELSE IF INT(B)=2 THEN 10 ELSE PRINT INT(C)", "PRINT", "PRINT ;", "PRINT ,", "PRINT A;", "PRINT@1,A;B$;",
+             "A$=INKEY$", "A=ASC(B$)", "A=LEN(B$)+ASC(C$)+VAL(D$)", "HSCREEN 2:HCLS:HCOLOR 1,2", "PLAY A$+\"C\"", "DIM A(2),B$(3),C", "CLS:CLS 3:END:STOP", "ON ERR GOTO 10", "ON BRK GOTO 10"]
+    forms = sorted(set(f.replace("{_}", "").replace("{+}", " ") for f in FORMS)) + extra
+    out = []
+    for frame_name, frame in {"alone": "10 %s\n20 END\n", "with the read filter on": "5 DATA 1,,\"x\"\n10 %s\n20 END\n", "in an IF arm": "10 IF Q1=1 THEN %s\n20 END\n"}.items():
+        def run(frame=frame, frame_name=frame_name):
+            bad, n = [], 0
+            for form in forms:
+                for kw in (dict(add_standard_prefix=False), dict(initialize_vars=True, default_str_storage=80)):
+                    try:
+                        text = convert(frame % form, **kw)
+                    except Exception:  # noqa  (refusals are C15's business)
+                        continue
+                    n += 1
+                    why = None
+                    m = re.search(r".{0,20}(object at 0x|<coco\.|<class |Node\().{0,20}", text)
+                    if m:
+                        why = "internal object in the text: %r" % m.group(0)
+                    elif re.search(r"(?m)\\\s*$", text):
+                        why = "a line ends in a dangling separator: %r" % re.search(r"(?m)^.*\\\s*$", text).group(0)[:80]
+                    else:
+                        try:
+                            check_program(text)
+                        except Bad as e:
+                            why = str(e)[:100]
+                    if why:
+                        bad.append("%r: %s" % (frame % form, why))
+            return [ob("forms/%s" % frame_name, not bad and n > 100, "well-formed output for every accepted form", bad[:3] or "%d conversions" % n, bounded="%d statement forms x 2 option sets" % len(forms))]
+        out += guarded("forms/%s" % frame_name, run)
+    return out
+
+
 _class_obligations = obligations
 
 
 def obligations():  # noqa: F811
-    return _class_obligations() + _examples()
+    return _class_obligations() + _examples() + statement_forms_well_formed()
 
 
 def fornext_closers():
